@@ -18,7 +18,7 @@ from ..probes import PROBES
 LEVEL = "exploration"
 RULE = {
     "C03": "Random dataflow programs (5-60 ops over smooth unary/binary ops, alias chains, gathers, reductions, value-steered if/while/recursion/closures, user-defined logging primitives; fan-out, multi-edges f(a,a), dead branches) + random explicit DAGs fed to autograd.util.toposort; guard idioms (a where / select / index selection keeping a singular branch away from its singular points: infinite cotangents at unselected entries, finite analytic gradient) and graphs of 1500-3000 sequential operations (chains, diamond ladders, dead branches) against the hand-written derivative recursion. A program is non-trivial iff its output depends on x, autograd returned a gradient, the FD reference was self-consistent and the recorded backward pass contained >= 3 rule applications. distinct = distinct structural signatures (op set, #ops, multi-edges, max fan-out, dead ops).",
-    "C10": "(Catalogue in closure-repeat mode: same / different cotangents, and a fresh closure first called with all-zero and half-zero cotangents, each answer bitwise equal to a fresh closure's.) Random programs with alias chains at/below the end node, fan-in, sparse/dense mixes (a quarter with a single-precision argument among double-precision constants and cotangents of the output's own or a wider precision); each run with frozen (writeable=False) and with writable hashed foreign arrays; VJP/JVP closures called in generated histories (same g twice, different g, interleaved closures, jacobian) and compared bitwise with fresh single calls. Non-trivial iff >= 3 closure calls were compared and >= 1 accumulation with fan-in happened. distinct = distinct (program structure, history) signatures.",
+    "C10": "(One program in twenty runs on buffers of more than 2**16 elements, without full Jacobians.) (Catalogue in closure-repeat mode: same / different cotangents, and a fresh closure first called with all-zero and half-zero cotangents, each answer bitwise equal to a fresh closure's.) Random programs with alias chains at/below the end node, fan-in, sparse/dense mixes (a quarter with a single-precision argument among double-precision constants and cotangents of the output's own or a wider precision); each run with frozen (writeable=False) and with writable hashed foreign arrays; VJP/JVP closures called in generated histories (same g twice, different g, interleaved closures, jacobian) and compared bitwise with fresh single calls. Non-trivial iff >= 3 closure calls were compared and >= 1 accumulation with fan-in happened. distinct = distinct (program structure, history) signatures.",
     "C11": "Index expressions of every NumPy kind (incl. array indices spelled as tuples / lists inside the index tuple) on arrays of rank 0-4 (pre-validated on NumPy) judged against the exact bincount scatter oracle in both modes (also with inf / NaN cotangent entries: only the positions those entries were read from may become non-finite; the caller's index object is hashed before and after), and mixing programs with k sparse and m dense uses of one value in generated creation/association orders (values of rank 0-3 incl. size-1, sparse uses linear or quadratic, optionally through a sibling that shares its first cotangent - constant or itself a function of x) judged against the analytic dense sum at first order and, with the accumulation running under an enclosing differentiation, against the FD of the gradient (reverse over reverse, forward over reverse); an exception from autograd on a program NumPy runs is a violation. Non-trivial iff the index selects >= 1 element. distinct = distinct (index class, rank) resp. (k, m, arrival pattern) signatures.",
 }
 ASSUMPTIONS = {
@@ -474,11 +474,19 @@ def c03_make(rng, tier, i):
 def c10_make(rng, tier, i):
     n_ops = int(rng.choice([3, 5, 8, 12]))
     shape = [(3,), (2, 2), (4,)][int(rng.integers(0, 3))]
+    # round 9, scale class: buffers beyond 2**16 elements (fast paths / chunking / in-place accumulation that
+    # only engage on large arrays); no full Jacobians there
+    large = i % 20 == 19
+    if large:
+        shape = [(66000,), (257, 257)][(i // 20) % 2]
+        n_ops = min(n_ops, 8)
     fams = [("alias", "binary"), ("alias", "sparse", "binary"), ("alias", "binary", "unary", "sparse", "reduce"), ("alias",), ("sparse", "alias"), ("user", "alias", "binary"), ("user", "sparse", "unary")][i % 7]
     prog = programs.gen_program(rng, n_ops=n_ops, shape=shape, p_dead=0.0, p_multi=0.5, families=fams, fan=int(rng.integers(1, 4)), n_out=1)
     end = ["raw", "x_plus_x", "views_sum", "weighted", "sparse_end", "tuple_out", "independent", "identity"][int(rng.integers(0, 8))]
     x = rng.uniform(0.3, 1.4, size=shape) * rng.choice([-1.0, 1.0], size=shape)
     hist = [str(t) for t in rng.choice(["g1", "g2", "g1", "other", "g3", "jac"], size=int(rng.integers(3, 7)))]
+    if large:
+        hist = [h for h in hist if h != "jac"] + ["g1", "g2", "g1"]
     # precision mixes: a single-precision argument among double-precision constants, with cotangents of the
     # output's own or of a wider precision (contributions of different widths meet in one accumulator)
     prec = ["f64", "f64", "x32", "f64", "x32g64", "f64", "f64", "x32g64"][i % 8]
